@@ -27,6 +27,7 @@ fn run_child(harness: &str, cfg: Value) {
     let ctx = serde_json::json!({"harness": harness, "config": cfg});
     let body: Box<dyn Fn() + Send + Sync> = match harness {
         "c01" => Box::new(move || harness::queue::c01(&cfg)),
+        "c01_spawn_failure" => Box::new(move || harness::queue::c01_spawn_failure(&cfg)),
         "c01_multi" => Box::new(move || harness::queue::c01_multi(&cfg)),
         "c01_writer_thread_append" => Box::new(move || harness::queue::c01_writer_thread_append(&cfg)),
         "c04_request_during_flush" => Box::new(move || harness::queue::c04_request_during_flush(&cfg)),
